@@ -190,6 +190,35 @@ def to_integer(value: JSValue) -> Union[int, float]:
     return n
 
 
+MAX_ARRAY_LENGTH = 2**32 - 1
+MAX_STRING_LENGTH = 2**30 - 25
+
+
+def to_array_length(value: JSValue) -> int:
+    """A length for Array(n) or a.length = n: an integer in 0..2^32-1, else RangeError."""
+    from .errors import JSRangeError
+
+    n = to_number(value)
+    if isinstance(n, float):
+        if math.isnan(n) or math.isinf(n) or not n.is_integer():
+            raise JSRangeError("Invalid array length")
+        n = int(n)
+    if n < 0 or n > MAX_ARRAY_LENGTH:
+        raise JSRangeError("Invalid array length")
+    return n
+
+
+def to_index(value: JSValue, what: str = "index") -> int:
+    """ToIndex: a count or offset argument (typed-array and ArrayBuffer lengths):
+    NaN/undefined are 0, fractions are truncated, negative or beyond 2^53-1 is a RangeError."""
+    from .errors import JSRangeError
+
+    n = to_integer(value)
+    if n < 0 or n > 2**53 - 1:
+        raise JSRangeError(f"Invalid {what}")
+    return int(n)
+
+
 def clamp_index(value: JSValue, length: int, default: int) -> int:
     """An optional position argument clamped to 0..length (undefined means default)."""
     if value is UNDEFINED:
